@@ -210,3 +210,44 @@ def compare(res, kinds, max_ulps=4.0, ill_rtol=1e-9):
             bad.append((kernel, name, int(i), str(kd), float(a[i]), float(b[i]),
                         float(u[i]) if math.isfinite(u[i]) else "nan-pattern"))
     return n_cmp, n_exc, bad
+
+
+# ------------------------------------------------------------------------------------------------ graph part, exact
+def graph_cases(rng, n_cases):
+    """Small random branch lists (parallel branches, loops, non-flowing / NaN / sub-threshold branches) through BOTH real
+    thermal kernels; the observed infeed sets and nodes_flow flags are shipped to Coq with the branch list and compared there
+    with C07/ModelGraph.v (np_* against the numpy kernel, nb_* against the numba kernel).  Returns Coq text."""
+    from pandapipes import idx_branch as B, idx_node as N
+    from pandapipes.pf import derivative_toolbox as T, derivative_toolbox_numba as U
+    r = np.random.RandomState(rng.randrange(2 ** 31))
+    out = []
+    for _ in range(n_cases):
+        nn, nb = r.randint(2, 8), r.randint(1, 11)
+        node = np.zeros((nn, N.node_cols))
+        node[:, N.TINIT] = r.uniform(280., 360., nn)
+        br = np.zeros((nb, B.branch_cols))
+        fn = r.randint(0, nn, nb).astype(np.int32)
+        tn = ((fn + 1 + r.randint(0, nn - 1, nb)) % nn).astype(np.int32)
+        br[:, B.FROM_NODE], br[:, B.TO_NODE] = fn, tn
+        br[:, B.MDOTINIT] = r.choice([1.0, 0.3, 0.0, 5e-11, 1e-10, 2e-10, np.nan, 2.5], nb)   # corrected direction: m >= 0
+        br[:, B.LENGTH], br[:, B.D], br[:, B.DO], br[:, B.AREA] = 100., 0.1, 0.11, 0.00785
+        br[:, B.ALPHA], br[:, B.TEXT], br[:, B.TOUTINIT] = 1.0, 283., r.uniform(280., 360., nb)
+        cp = np.full(nb, 4180.)
+        args = (node, br, node.copy(), np.arange(N.node_cols, dtype=np.int32), br.copy(),
+                np.arange(B.branch_cols, dtype=np.int32), fn, tn, node[fn, N.TINIT], br[:, B.TOUTINIT].copy(),
+                node[tn, N.TINIT], node[:, N.TINIT].copy(), cp, cp, np.full(nb, 990.))
+        with np.errstate(all="ignore"):
+            a = T.derivatives_thermal_np(*args, None, False, 293.15)
+            b = U.derivatives_thermal_numba(*args, None, False, 293.15)
+        inf_np = np.zeros(nn, bool)
+        inf_np[a[8]] = True
+        inf_nb = np.asarray(b[8], bool)
+        nf_np, nf_nb = a[1] != 1.0, b[1] != 1.0                      # dfn_dt = 1 exactly where ~nodes_flow
+        m = br[:, B.MDOTINIT]
+        flow = ~np.isnan(m) & (np.abs(np.nan_to_num(m)) > 1e-10)      # the flag proved equal in both kernels (twin_thermal_equal)
+        bl = lambda x: "[" + "; ".join("true" if v else "false" for v in x) + "]"
+        out.append("{| g_branches := [%s]; g_n := %d; g_infeed_np := %s; g_infeed_nb := %s; g_nflow_np := %s; g_nflow_nb := %s |}"
+                   % ("; ".join("{| bf := %d; bt := %d; flow := %s |}" % (f, t, "true" if fl else "false")
+                                for f, t, fl in zip(fn, tn, flow)), nn, bl(inf_np), bl(inf_nb), bl(nf_np), bl(nf_nb)))
+    return ("From Coq Require Import List ZArith.\nFrom PP Require Import C07.ModelGraph.\nImport ListNotations.\n"
+            "Definition cs : list gcase := [\n%s\n].\nEval vm_compute in (gsummary cs).\n" % ";\n".join(out))
